@@ -3,7 +3,7 @@
 From Coq Require Import List NArith Bool Lia.
 From Storage Require Import Base.Bytes.
 Import ListNotations.
-Open Scope N_scope.
+Local Open Scope N_scope.
 
 Lemma str_eqb_refl : forall a, str_eqb a a = true.
 Proof. induction a as [|x a IH]; simpl; auto. rewrite N.eqb_refl, IH. reflexivity. Qed.
